@@ -134,14 +134,51 @@ func Front(src []byte, lineMode bool) (fr FrontResult) {
 		return fr
 	}
 	fr.TreeDump = strings.ReplaceAll(DumpList(prog.Statements, true), " ", "")
+	w := 1
+	if HasNilChild(prog) {
+		w = 0
+	}
 	if !StringsInQuoteDomain(src, lineMode) {
 		// strconv.Quote on valid multi-byte UTF-8 is outside the printer model's byte universe
-		fr.Obs = fmt.Sprintf("%s TREE=%s N=U C=U P=U", head, fr.TreeDump)
+		fr.Obs = fmt.Sprintf("%s TREE=%s W=%d N=U C=U P=U", head, fr.TreeDump, w)
 		return fr
 	}
-	fr.Obs = fmt.Sprintf("%s TREE=%s N=%s C=%s P=%s", head, fr.TreeDump,
+	fr.Obs = fmt.Sprintf("%s TREE=%s W=%d N=%s C=%s P=%s", head, fr.TreeDump, w,
 		PrintMode(prog, false, false), PrintMode(prog, true, false), PrintMode(prog, true, true))
 	return fr
+}
+
+// Convs returns the number-conversion oracle field for all INT/FLOAT literals of the given texts.
+func Convs(texts ...[]byte) string {
+	var convs []string
+	seen := map[string]bool{}
+	for _, src := range texts {
+		l := lexer.NewBytes(src)
+		for i := 0; i < len(src)+3; i++ {
+			t := l.NextToken()
+			if t.Type() == token.INT || t.Type() == token.FLOAT {
+				lit := t.Literal()
+				if !seen[lit] {
+					seen[lit] = true
+					is, fs := "ie", "fe"
+					if v, err := strconv.ParseInt(lit, 0, 64); err == nil {
+						is = fmt.Sprintf("i%d", v)
+					}
+					if v, err := strconv.ParseFloat(lit, 64); err == nil {
+						fs = fmt.Sprintf("f%d", math.Float64bits(v))
+					}
+					convs = append(convs, Hx([]byte(lit))+"."+is+"."+fs)
+				}
+			}
+			if t.Type() == token.EOF || t.Type() == token.EOL {
+				break
+			}
+		}
+	}
+	if len(convs) == 0 {
+		return "-"
+	}
+	return strings.Join(convs, ",")
 }
 
 // QuoteInDomain mirrors Printer.quote_in_domain: no lead byte 0xC2..0xF4 directly followed by a
